@@ -366,7 +366,7 @@ func main() {
 		GenerateCodeVerifierString GenerateCodeChallenge ManualSignIn Validate OAuthStart
 		decodeTicketFromRequest newTicket saveSession setCookie loadSession clearCookie clearSession Save Load Clear
 		getValidatedSession refreshSessionIfNeeded needsRefresh ObtainLock ReleaseLock refreshSession validateSession sessionRefresher sessionValidator
-		CreatedAtNow IsExpired loadCookie DecodeSessionState cookieForSession setSessionCookie makeSessionCookie clearCookiesExcept SignedValue splitCookie
+		CreatedAtNow IsExpired loadCookie DecodeSessionState cookieForSession setSessionCookie makeSessionCookie clearCookiesExcept SignedValue splitCookie isSessionCookieName splitCookieName Atoi LastIndex Cookies makeCookie SplitHostPort HasSuffix HasPrefix MatchString Parse IsEndpointAllowed validateRedirect Cookie joinCookies MakeCookieFromOptions
 		isPreflightRequestAllowed isAllowedRoute isTrustedIP GetClientIP Has verifyAudience Verify Claims isValidAudience buildSessionFromClaims
 		verifyIDToken createSession redeemRefreshToken checkNonce GetClaimInto CheckNonce VerifyConnection
 		Lock Unlock RLock RUnlock StorePointer LoadPointer createHtpasswdMap ReadAll`) {
@@ -385,6 +385,10 @@ func main() {
 		{"pkg/middleware/stored_session.go", "storedSessionLoader.validateSession"},
 		{"pkg/sessions/cookie/session_store.go", "SessionStore.Save"}, {"pkg/sessions/cookie/session_store.go", "SessionStore.Load"}, {"pkg/sessions/cookie/session_store.go", "SessionStore.Clear"},
 		{"pkg/sessions/cookie/session_store.go", "SessionStore.setSessionCookie"},
+		{"pkg/sessions/cookie/session_store.go", "SessionStore.clearCookiesExcept"}, {"pkg/sessions/cookie/session_store.go", "isSessionCookieName"},
+		{"pkg/sessions/cookie/session_store.go", "loadCookie"}, {"pkg/sessions/cookie/session_store.go", "SessionStore.makeSessionCookie"},
+		{"pkg/cookies/cookies.go", "MakeCookieFromOptions"}, {"pkg/cookies/cookies.go", "GetCookieDomain"},
+		{"pkg/app/redirect/validator.go", "validator.IsValidRedirect"}, {"pkg/app/redirect/director.go", "appDirector.GetRedirect"},
 		{"pkg/providers/oidc/verifier.go", "idTokenVerifier.Verify"},
 		{"providers/oidc.go", "OIDCProvider.createSession"}, {"providers/oidc.go", "OIDCProvider.CreateSessionFromToken"}, {"providers/oidc.go", "OIDCProvider.ValidateSession"},
 		{"providers/oidc.go", "OIDCProvider.RefreshSession"},
@@ -588,65 +592,10 @@ func main() {
 	emit("def clearRegex_args : List String := %s\n", lstrs(callArgs("pkg/sessions/cookie/session_store.go", "SessionStore.clearCookiesExcept", "regexp.MustCompile")))
 
 	// ------------------------------------------------------------------ F7 lock discipline
-	emit("\n/-- (function, variable, write?, lock mode held: none|R|W, atomic?) for every access to the shared snapshot -/\n")
+	emit("\n/-- `func|var|read/write|none/R/W|plain/atomic/private` for every access to the shared snapshot cell\n    (`users`, `m`) and to the contents of the map it points to (`users[]`, `m[]`). `private` = the\n    access goes through a map that this function (or its only callers) freshly allocated and has\n    not yet published; see sharedScan in /verif/extract/main.go for the rule. -/\n")
 	var acc []string
-	{
-		f := parse("pkg/authentication/basic/htpasswd.go")
-		fm := funcs(f)
-		names := make([]string, 0)
-		for n := range fm {
-			names = append(names, n)
-		}
-		sort.Strings(names)
-		for _, name := range names {
-			fd := fm[name]
-			if fd.Body == nil || fd.Recv == nil {
-				continue
-			}
-			recv := ""
-			if len(fd.Recv.List) == 1 && len(fd.Recv.List[0].Names) == 1 {
-				recv = fd.Recv.List[0].Names[0].Name
-			}
-			if recv == "" {
-				continue
-			}
-			acc = append(acc, lockScan(name, fd, recv, "users", "rwm")...)
-		}
-		f2 := parse("validator.go")
-		fm2 := funcs(f2)
-		names = names[:0]
-		for n := range fm2 {
-			names = append(names, n)
-		}
-		sort.Strings(names)
-		for _, name := range names {
-			fd := fm2[name]
-			if fd.Body == nil {
-				continue
-			}
-			ast.Inspect(fd.Body, func(n ast.Node) bool {
-				switch v := n.(type) {
-				case *ast.CallExpr:
-					cn := calleeName(v)
-					if (cn == "atomic.LoadPointer" || cn == "atomic.StorePointer") && len(v.Args) >= 1 && strings.HasSuffix(src(v.Args[0]), ".m") {
-						w := "read"
-						if cn == "atomic.StorePointer" {
-							w = "write"
-						}
-						acc = append(acc, fmt.Sprintf("%s|m|%s|none|atomic", name, w))
-						return false
-					}
-				case *ast.SelectorExpr:
-					if v.Sel.Name == "m" {
-						if x, ok := v.X.(*ast.Ident); ok && x.Name == "um" {
-							acc = append(acc, fmt.Sprintf("%s|m|plain-access|none|plain", name))
-						}
-					}
-				}
-				return true
-			})
-		}
-	}
+	acc = append(acc, sharedScan("pkg/authentication/basic/htpasswd.go", "htpasswdMap", "users", "rwm", "")...)
+	acc = append(acc, sharedScan("validator.go", "UserMap", "m", "", "um")...)
 	emit("def sharedAccesses : List String := %s\n", lstrsNL(acc))
 
 	emit("\nend O2P.Facts\n")
@@ -656,44 +605,412 @@ func main() {
 	}
 }
 
-// lockScan walks a method body in source order tracking recv.<lock>.Lock/RLock/Unlock/RUnlock
-// calls and records the lock mode in force at each access of recv.<field>.
-func lockScan(name string, fd *ast.FuncDecl, recv, field, lock string) []string {
-	var res []string
-	mode := "none"
-	assigned := map[ast.Node]bool{}
-	ast.Inspect(fd.Body, func(n ast.Node) bool {
-		if as, ok := n.(*ast.AssignStmt); ok {
-			for _, l := range as.Lhs {
-				assigned[l] = true
+// sharedScan extracts the lock discipline of one shared snapshot cell: the field `field` of
+// struct type `typ` in file `rel`.
+//
+//   - Every function of the file is scanned (methods AND plain functions).
+//   - "Holders" are the identifiers through which an object of type `typ` is reached in a
+//     function: the receiver, parameters of type *typ, and locals assigned from `&typ{…}` or
+//     from a call to a function of the file that returns such a fresh object.
+//   - For the pointer cell itself: `x.field = …` is a write, every other `x.field` a read; an
+//     access made by `atomic.LoadPointer(&x.field)` / `atomic.StorePointer(&x.field, …)` is an
+//     atomic read / write. The lock mode is the state of `x.<lock>` (Lock → W, RLock → R,
+//     Unlock/RUnlock → none) at that point in source order.
+//   - For the CONTENTS of the map the cell points to (variable `field[]`): `m[k] = v` and
+//     `delete(m, k)` are writes, `m[k]`, `range m` and `len(m)` reads, where `m` is `x.field`
+//     or a local bound to the live map (`m := *(*map…)(atomic.LoadPointer(&x.field))`) or to a
+//     fresh map (`m := make(map…)`).
+//   - An access is `private` (not shared, exempt from the discipline) iff it goes through a
+//     FRESH holder or fresh map — one that this very function allocated (`&typ{…}`,
+//     `make(map…)`, or the result of a constructor function of the file), or a parameter of a
+//     plain function whose every call site in the file passes such a fresh holder — AND it
+//     occurs before the function publishes it (an assignment of it or of its `.field` into a
+//     non-fresh holder, or an atomic.StorePointer of its address). Today that exempts exactly:
+//     createHtpasswdMap (its own `h := &htpasswdMap{…}`), passShaOrBcrypt (only called by
+//     createHtpasswdMap with that `h`), the read of `updated.users` in loadHTPasswdFile,
+//     the literal in NewHTPasswdValidator, and the filling of `updated` in
+//     LoadAuthenticatedEmailsFile before the StorePointer.
+func sharedScan(rel, typ, field, lock, recvHint string) []string {
+	f := parse(rel)
+	fm := funcs(f)
+	names := make([]string, 0, len(fm))
+	for n := range fm {
+		names = append(names, n)
+	}
+	sort.Strings(names)
+	isTyp := func(e ast.Expr) bool {
+		if st, ok := e.(*ast.StarExpr); ok {
+			e = st.X
+		}
+		id, ok := e.(*ast.Ident)
+		return ok && id.Name == typ
+	}
+	isFreshLit := func(e ast.Expr) bool {
+		if u, ok := e.(*ast.UnaryExpr); ok && u.Op == token.AND {
+			if cl, ok := u.X.(*ast.CompositeLit); ok {
+				return isTyp(cl.Type)
 			}
 		}
-		return true
-	})
-	ast.Inspect(fd.Body, func(n ast.Node) bool {
-		switch v := n.(type) {
-		case *ast.CallExpr:
-			cn := calleeName(v)
-			switch cn {
-			case recv + "." + lock + ".Lock":
-				mode = "W"
-			case recv + "." + lock + ".RLock":
-				mode = "R"
-			case recv + "." + lock + ".Unlock", recv + "." + lock + ".RUnlock":
-				mode = "none"
+		return false
+	}
+	// constructor functions: plain functions whose results include *typ and whose body
+	// allocates the object with a composite literal
+	constructors := map[string]bool{}
+	for _, n := range names {
+		fd := fm[n]
+		if fd.Recv != nil || fd.Type.Results == nil || fd.Body == nil {
+			continue
+		}
+		ret := false
+		for _, r := range fd.Type.Results.List {
+			if isTyp(r.Type) {
+				ret = true
 			}
-		case *ast.SelectorExpr:
-			if x, ok := v.X.(*ast.Ident); ok && x.Name == recv && v.Sel.Name == field {
-				w := "read"
-				if assigned[v] {
-					w = "write"
+		}
+		lit := false
+		ast.Inspect(fd.Body, func(n ast.Node) bool {
+			if e, ok := n.(ast.Expr); ok && isFreshLit(e) {
+				lit = true
+			}
+			return true
+		})
+		if ret && lit {
+			constructors[fd.Name.Name] = true
+		}
+	}
+	// fresh holders per function: ident → true
+	freshIn := func(fd *ast.FuncDecl) map[string]bool {
+		fresh := map[string]bool{}
+		ast.Inspect(fd.Body, func(n ast.Node) bool {
+			as, ok := n.(*ast.AssignStmt)
+			if !ok {
+				return true
+			}
+			for i, l := range as.Lhs {
+				id, ok := l.(*ast.Ident)
+				if !ok {
+					continue
 				}
-				res = append(res, fmt.Sprintf("%s|%s|%s|%s|plain", name, field, w, mode))
+				var r ast.Expr
+				if len(as.Rhs) == len(as.Lhs) {
+					r = as.Rhs[i]
+				} else if len(as.Rhs) == 1 && i == 0 {
+					r = as.Rhs[0]
+				}
+				if r == nil {
+					continue
+				}
+				if isFreshLit(r) {
+					fresh[id.Name] = true
+				}
+				if c, ok := r.(*ast.CallExpr); ok {
+					if constructors[calleeName(c)] {
+						fresh[id.Name] = true
+					}
+					if calleeName(c) == "make" && len(c.Args) >= 1 {
+						if _, ok := c.Args[0].(*ast.MapType); ok {
+							fresh["map:"+id.Name] = true
+						}
+					}
+				}
+			}
+			return true
+		})
+		return fresh
+	}
+	// parameters of type *typ of plain functions that only ever receive fresh holders
+	privateParam := map[string]map[string]bool{} // func → param → private
+	for iter := 0; iter < 3; iter++ {
+		for _, n := range names {
+			fd := fm[n]
+			if fd.Recv != nil || fd.Body == nil {
+				continue
+			}
+			for pi, p := range flattenParams(fd) {
+				if !isTyp(p.typ) {
+					continue
+				}
+				sites, allFresh := 0, true
+				for _, cn := range names {
+					caller := fm[cn]
+					if caller.Body == nil {
+						continue
+					}
+					fr := freshIn(caller)
+					ast.Inspect(caller.Body, func(x ast.Node) bool {
+						c, ok := x.(*ast.CallExpr)
+						if !ok || calleeName(c) != fd.Name.Name || pi >= len(c.Args) {
+							return true
+						}
+						sites++
+						id, ok := c.Args[pi].(*ast.Ident)
+						if !ok || !(fr[id.Name] || privateParam[caller.Name.Name][id.Name]) {
+							allFresh = false
+						}
+						return true
+					})
+				}
+				if sites > 0 && allFresh {
+					if privateParam[fd.Name.Name] == nil {
+						privateParam[fd.Name.Name] = map[string]bool{}
+					}
+					privateParam[fd.Name.Name][p.name] = true
+				}
 			}
 		}
-		return true
-	})
+	}
+	var res []string
+	seen := map[string]bool{}
+	add := func(s string) {
+		if !seen[s] {
+			seen[s] = true
+			res = append(res, s)
+		}
+	}
+	for _, name := range names {
+		fd := fm[name]
+		if fd.Body == nil {
+			continue
+		}
+		holders := map[string]bool{} // identifiers denoting an object of type typ
+		if fd.Recv != nil && len(fd.Recv.List) == 1 && len(fd.Recv.List[0].Names) == 1 && isTyp(fd.Recv.List[0].Type) {
+			holders[fd.Recv.List[0].Names[0].Name] = true
+		}
+		for _, p := range flattenParams(fd) {
+			if isTyp(p.typ) {
+				holders[p.name] = true
+			}
+		}
+		if recvHint != "" {
+			holders[recvHint] = true // closures and constructors use the conventional name
+		}
+		fresh := freshIn(fd)
+		for id := range fresh {
+			if !strings.HasPrefix(id, "map:") {
+				holders[id] = true
+			}
+		}
+		for id := range privateParam[fd.Name.Name] {
+			fresh[id] = true
+		}
+		// publication points of fresh things: position after which they are shared
+		published := map[string]token.Pos{}
+		pub := func(id string, at token.Pos) {
+			if p, ok := published[id]; !ok || at < p {
+				published[id] = at
+			}
+		}
+		mentions := func(e ast.Expr, id string) bool {
+			found := false
+			ast.Inspect(e, func(n ast.Node) bool {
+				if x, ok := n.(*ast.Ident); ok && x.Name == id {
+					found = true
+				}
+				return true
+			})
+			return found
+		}
+		ast.Inspect(fd.Body, func(n ast.Node) bool {
+			switch v := n.(type) {
+			case *ast.AssignStmt:
+				for _, l := range v.Lhs {
+					sel, ok := l.(*ast.SelectorExpr)
+					if !ok {
+						continue
+					}
+					base, ok := sel.X.(*ast.Ident)
+					if !ok || fresh[base.Name] {
+						continue
+					}
+					for _, r := range v.Rhs {
+						for id := range fresh {
+							if mentions(r, strings.TrimPrefix(id, "map:")) {
+								pub(id, v.End())
+							}
+						}
+					}
+				}
+			case *ast.CallExpr:
+				if calleeName(v) == "atomic.StorePointer" && len(v.Args) == 2 {
+					for id := range fresh {
+						if mentions(v.Args[1], strings.TrimPrefix(id, "map:")) {
+							pub(id, v.End())
+						}
+					}
+				}
+			case *ast.ReturnStmt:
+				// returning a fresh object hands it to the caller, who is analysed on its own
+			}
+			return true
+		})
+		isPrivate := func(id string, at token.Pos) bool {
+			if !fresh[id] {
+				return false
+			}
+			p, ok := published[id]
+			return !ok || at <= p
+		}
+		// live / fresh map locals (contents accesses)
+		mapVar := map[string]string{} // ident → "live" | "fresh"
+		ast.Inspect(fd.Body, func(n ast.Node) bool {
+			as, ok := n.(*ast.AssignStmt)
+			if !ok || len(as.Lhs) != len(as.Rhs) {
+				return true
+			}
+			for i, l := range as.Lhs {
+				id, ok := l.(*ast.Ident)
+				if !ok {
+					continue
+				}
+				if fresh["map:"+id.Name] {
+					mapVar[id.Name] = "fresh"
+				}
+				if strings.Contains(src(as.Rhs[i]), "atomic.LoadPointer") && strings.Contains(src(as.Rhs[i]), "."+field) {
+					mapVar[id.Name] = "live"
+				}
+			}
+			return true
+		})
+		// classify syntactic positions
+		lhs := map[ast.Node]bool{}
+		atomicArg := map[ast.Node]string{}
+		ast.Inspect(fd.Body, func(n ast.Node) bool {
+			switch v := n.(type) {
+			case *ast.AssignStmt:
+				for _, l := range v.Lhs {
+					lhs[l] = true
+				}
+			case *ast.IncDecStmt:
+				lhs[v.X] = true
+			case *ast.CallExpr:
+				cn := calleeName(v)
+				if (cn == "atomic.LoadPointer" || cn == "atomic.StorePointer") && len(v.Args) >= 1 {
+					if u, ok := v.Args[0].(*ast.UnaryExpr); ok && u.Op == token.AND {
+						if cn == "atomic.LoadPointer" {
+							atomicArg[u.X] = "read"
+						} else {
+							atomicArg[u.X] = "write"
+						}
+					}
+				}
+			}
+			return true
+		})
+		// is e the cell `x.field` of a holder x?  returns x
+		cellOf := func(e ast.Expr) (string, bool) {
+			sel, ok := e.(*ast.SelectorExpr)
+			if !ok || sel.Sel.Name != field {
+				return "", false
+			}
+			x, ok := sel.X.(*ast.Ident)
+			if !ok || !holders[x.Name] {
+				return "", false
+			}
+			return x.Name, true
+		}
+		mode := map[string]string{}
+		modeOf := func(x string) string {
+			if m, ok := mode[x]; ok {
+				return m
+			}
+			return "none"
+		}
+		kindOf := func(holder string, at token.Pos) string {
+			if isPrivate(holder, at) {
+				return "private"
+			}
+			return "plain"
+		}
+		// contents access through expression m (either x.field or a map local)
+		contents := func(m ast.Expr, rw string, at token.Pos) {
+			if x, ok := cellOf(m); ok {
+				add(fmt.Sprintf("%s|%s[]|%s|%s|%s", name, field, rw, modeOf(x), kindOf(x, at)))
+				return
+			}
+			if id, ok := m.(*ast.Ident); ok {
+				switch mapVar[id.Name] {
+				case "live":
+					add(fmt.Sprintf("%s|%s[]|%s|none|plain", name, field, rw))
+				case "fresh":
+					if _, everPublished := published["map:"+id.Name]; !everPublished {
+						return // a scratch map that never becomes the shared snapshot
+					}
+					k := "plain"
+					if isPrivate("map:"+id.Name, at) {
+						k = "private"
+					}
+					add(fmt.Sprintf("%s|%s[]|%s|none|%s", name, field, rw, k))
+				}
+			}
+		}
+		ast.Inspect(fd.Body, func(n ast.Node) bool {
+			switch v := n.(type) {
+			case *ast.CallExpr:
+				cn := calleeName(v)
+				if lock != "" {
+					for x := range holders {
+						switch cn {
+						case x + "." + lock + ".Lock":
+							mode[x] = "W"
+						case x + "." + lock + ".RLock":
+							mode[x] = "R"
+						case x + "." + lock + ".Unlock", x + "." + lock + ".RUnlock":
+							mode[x] = "none"
+						}
+					}
+				}
+				if cn == "delete" && len(v.Args) == 2 {
+					contents(v.Args[0], "write", v.Pos())
+				}
+				if cn == "len" && len(v.Args) == 1 {
+					contents(v.Args[0], "read", v.Pos())
+				}
+			case *ast.RangeStmt:
+				contents(v.X, "read", v.Pos())
+			case *ast.IndexExpr:
+				if lhs[v] {
+					contents(v.X, "write", v.Pos())
+				} else {
+					contents(v.X, "read", v.Pos())
+				}
+			case *ast.SelectorExpr:
+				if x, ok := cellOf(v); ok {
+					if rw, ok := atomicArg[v]; ok {
+						add(fmt.Sprintf("%s|%s|%s|%s|atomic", name, field, rw, modeOf(x)))
+					} else {
+						rw := "read"
+						if lhs[v] {
+							rw = "write"
+						}
+						add(fmt.Sprintf("%s|%s|%s|%s|%s", name, field, rw, modeOf(x), kindOf(x, v.Pos())))
+					}
+				}
+			}
+			return true
+		})
+	}
 	return res
+}
+
+type paramInfo struct {
+	name string
+	typ  ast.Expr
+}
+
+func flattenParams(fd *ast.FuncDecl) []paramInfo {
+	var out []paramInfo
+	if fd.Type.Params == nil {
+		return out
+	}
+	for _, p := range fd.Type.Params.List {
+		if len(p.Names) == 0 {
+			out = append(out, paramInfo{"_", p.Type})
+		}
+		for _, n := range p.Names {
+			out = append(out, paramInfo{n.Name, p.Type})
+		}
+	}
+	return out
 }
 
 func ifConds(rel, fn string) []string {
